@@ -62,6 +62,7 @@ type User struct {
 	Team      []User     `gorm:"foreignkey:ManagerID"`
 	Languages []Language `gorm:"many2many:user_languages"`
 	Friends   []*User    `gorm:"many2many:user_friends"`
+	Birthday  *time.Time // a pointer-typed time field (its setter takes time.Time, string and *time.Time values)
 }
 
 // Note is unrelated to every other model.
@@ -115,6 +116,18 @@ type Gadget struct {
 type KV struct {
 	K string `gorm:"primarykey"`
 	V string
+}
+
+// KVPanic, when set, is what KV's BeforeCreate hook panics with for a row whose
+// value is "panic!" (a panic inside an operation's callback chain, not in the
+// caller's own code).
+var KVPanic interface{}
+
+func (m *KV) BeforeCreate(tx *gorm.DB) error {
+	if m.V == "panic!" && KVPanic != nil {
+		panic(KVPanic)
+	}
+	return nil
 }
 
 // Marker rows are written by hooks through the *gorm.DB they are given.
